@@ -29,7 +29,7 @@ os.makedirs(d, exist_ok=True)
 shutil.copy(os.path.join(src, "patch.diff"), os.path.join(d, "patch.diff"))
 shutil.copy(os.path.join(src, "demo.rs"), os.path.join(d, "demo.rs"))
 json.dump({"id": mid, "breaks_property": prop,
-           "origin": "fresh sub-agent (second wave) given only the property text, the list of first-wave ideas to avoid, and a scratch worktree of /repo (nothing from /verif)",
+           "origin": os.environ.get("FV_SEED_ORIGIN", "fresh sub-agent given only the property text, the list of earlier ideas to avoid, and a scratch worktree of /repo (nothing from /verif)"),
            "needs_to_manifest": notes[:4000], "demo_cargo_args": " ".join(extra),
            "confirmed_by": "tools/confirm_mutant.sh in the scratch worktree: demo passes on the pristine tree; with the patch the existing suite passes and the demo fails",
            "confirmation_log": log[-3000:]}, open(os.path.join(d, "meta.json"), "w"), indent=1)
